@@ -7,6 +7,9 @@ import (
 	"strings"
 
 	"github.com/bool64/cache"
+
+	dupa "verif/harness/dupa/dup"
+	dupb "verif/harness/dupb/dup"
 )
 
 // Pool of types for the gob types hash laws.
@@ -27,7 +30,8 @@ type (
 	hashT8 struct{ B []byte }
 )
 
-var hashPool = []interface{}{hashT1{}, hashT2{}, hashT3{}, hashT4{}, hashT5{}, hashT6{}, hashT7{}, hashT8{}}
+// The last two types have the same package name and type name ("dup.T") but different import paths.
+var hashPool = []interface{}{hashT1{}, hashT2{}, hashT3{}, hashT4{}, hashT5{}, hashT6{}, hashT7{}, hashT8{}, dupa.T{}, dupb.T{}}
 
 // childHashMain registers the pool types named by VERIF_HASH_ORDER (comma separated indexes,
 // repetitions allowed) in that order and prints the resulting types hash.
